@@ -15,6 +15,23 @@ SPEC = os.path.join(vlib.VERIF, "spec", "dispatch")
 ORIG = {"co": "call_other", "drv": "driver", "efun": "efun", "cout": "call_out"}
 
 
+def defines(fam, i, n):
+    """program i (1-based) defines or inherits a function n"""
+    p = fam[i - 1]
+    return any(f["name"] == n for f in p["funcs"]) or any(defines(fam, inh["p"], n) for inh in p["inh"])
+
+
+def supers(fam):
+    """(program, name) pairs for which '::name()' written in that program compiles: some inherit has the name"""
+    reach, todo = set(), [len(fam)]
+    while todo:                       # only programs that are part of the object
+        i = todo.pop()
+        if i not in reach:
+            reach.add(i)
+            todo += [inh["p"] for inh in fam[i - 1]["inh"]]
+    return [(i, n) for i, p in enumerate(fam, 1) for n in ("f", "g") if i in reach and any(defines(fam, inh["p"], n) for inh in p["inh"])]
+
+
 def write_family(root, fid, fam):
     d = os.path.join(root, "fam", str(fid))
     os.makedirs(d, exist_ok=True)
@@ -26,6 +43,9 @@ def write_family(root, fid, fam):
         for fn in p["funcs"]:
             src.append('%smixed %s(mixed a) { vlog("\\"e\\":\\"Ran\\",\\"p\\":%d,\\"vp\\":" + v_p%d); return %d; }'
                        % ((fn["mod"] + " ") if fn["mod"] else "", fn["name"], i, i, i))
+        for (pi, n) in supers(fam):
+            if pi == i:     # reached by a driver-origin apply, whatever the inherit modifiers
+                src.append('mixed sup_%s_p%d(mixed a) { return ::%s(1); }' % (n, i, n))
         if i == len(fam):
             src.append("void create() { seteuid(getuid()); }")
             # function names as literals: compiled programs hold them as shared strings, as ordinary LPC code does
@@ -41,7 +61,7 @@ def write_family(root, fid, fam):
 
 def script_of(fid, h):
     ops = ["backend", "connect u1", "cycle", "line u1 name u1", "cycle",
-           "line u1 do me mk:t:/fam/%s/p3;mk:cal:/fam/%s/caller" % (fid, fid), "cycle"]
+           "line u1 do me mk:t:/fam/%s/p%d;mk:cal:/fam/%s/caller" % (fid, len(h["family"]), fid), "cycle"]
     for c in h["calls"]:
         o, n = c.split("_")
         if o == "co":
@@ -52,6 +72,8 @@ def script_of(fid, h):
             ops += ["callreg t %s" % n, "cycle"]
         elif o == "cout":
             ops += ["line u1 do me xcall:t:sched_%s" % n, "cycle", "tick 2", "cycle", "cycle"]
+    for (pi, n) in supers(h["family"]):     # every '::' call of the family, once before and once after the history's calls is enough: after
+        ops += ["callreg t sup_%s_p%d" % (n, pi), "cycle"]
     ops += ["cycle"]
     return ops
 
@@ -65,6 +87,9 @@ def project(ex, h):
         e = ev.get("e")
         if e == "Mk" and ev.get("ob") == "t":
             made = True
+        elif e == "Call" and ev["name"].startswith("sup_"):
+            _, n, pp = ev["name"].split("_")
+            out.append({"e": "Super", "from": int(pp[1:]), "name": n})
         elif e == "Call":
             out.append({"e": "Call", "origin": ev["origin"], "name": ev["name"]})
             if ev["origin"] == "call_out":
